@@ -90,6 +90,16 @@ class TreeFam(Family):
             n = rng.choice([41, 57, 64, 85, 100, 121, 156, 200, 341]) + rng.randrange(-1, 2)
             bf = rng.choice([2, 3, 4, 5, 6, 7, 10, 16, 40])
             yield (f"random-large-n{n}-bf{bf}", config_script(bf, random_ids(rng, n), rng))
+        # (3b) the first position of every level (where p*(bf-1)+1 is an exact power of bf) for the wider branch factors:
+        #      the place where a closed form in floating point lands one level off (C17-r6m1: bf 10 from 112 replicas on)
+        for bf in range(7, 17):
+            p, w = 1, bf
+            while p + w <= 300:
+                p, w = p + w, w * bf          # p = first position of the next level
+            # p is now the first position of the deepest level that starts within 300 replicas
+            for n in ([p + 1, p + bf + 1] if not quick else [p + 1]):
+                if n <= 320:
+                    yield (f"level-start-n{n}-bf{bf}", config_script(bf, list(range(1, n + 1)), rng))
         # (4) malformed: the model must predict the panics and the first-index semantics; outside the property
         for k in range(60 if quick else 1500):
             n = rng.randrange(0, 9)
